@@ -7,10 +7,10 @@ rm -rf "$W"; git -C /repo worktree prune; git -C /repo worktree add -q --detach 
 cd "$W"
 demo=$(ls "$D"/seeded_*.rs | head -1); name=$(basename "$demo" .rs)
 if grep -q "melvm" <<<"$(head -c 0 /dev/null)"; then :; fi
-mkdir -p tests; cp "$demo" tests/
+if grep -q "^use melvm\|melvm::" "$demo" && ! grep -q "melstf" "$demo"; then PKG="-p melvm"; mkdir -p lib/melvm/tests; cp "$demo" lib/melvm/tests/; else PKG=""; mkdir -p tests; cp "$demo" tests/; fi
 export CARGO_TARGET_DIR=$W/target CARGO_NET_OFFLINE=true
-echo "## without the change: demo"; cargo test --offline --test "$name" 2>&1 | grep -E "^test result|error(\[|:)" | head -5
+echo "## without the change: demo"; cargo test --offline $PKG --test "$name" 2>&1 | grep -E "^test result|error(\[|:)" | head -5
 git apply "$D/patch.diff" || { echo "PATCH DOES NOT APPLY"; exit 3; }
 echo "## with the change: build + baseline"; cargo nextest run --workspace --no-fail-fast --test-threads 8 --offline 2>&1 | grep -E "Summary|^\s+FAIL" | sort | uniq | head -12
-echo "## with the change: demo"; cargo test --offline --test "$name" 2>&1 | grep -E "^test result|error(\[|:)" | head -5
+echo "## with the change: demo"; cargo test --offline $PKG --test "$name" 2>&1 | grep -E "^test result|error(\[|:)" | head -5
 cd /; git -C /repo worktree remove --force "$W"; rm -rf "$W"
